@@ -262,6 +262,35 @@ def _root_kind(ctx, body, root):
     return al[0] if al else None
 
 
+def _local_mutators(body, operand):
+    """calls that receive `&mut <local>` of a local in the move-chain feeding `operand` (e.g. `map.sort_keys()` between
+    `collect()` and the struct literal) - invisible to provenance, so looked up on the raw MIR"""
+    chain = set()
+    p = operand.get("m") or operand.get("c")
+    seen = 0
+    while p is not None and not p["p"] and seen < 10:
+        chain.add(p["l"])
+        ds = body.defs.get(p["l"], [])
+        nxt = None
+        if len(ds) == 1 and ds[0][2] == "stmt" and ds[0][3]["rv"]["r"] == "use":
+            o = ds[0][3]["rv"]["o"]
+            nxt = o.get("m") or o.get("c")
+        p = nxt
+        seen += 1
+    out = []
+    for bi, t in body.iter_calls():
+        for a in t["args"]:
+            q = a.get("m") or a.get("c")
+            if q is None or q["p"]:
+                continue
+            ds = body.defs.get(q["l"], [])
+            if len(ds) == 1 and ds[0][2] == "stmt":
+                rv = ds[0][3]["rv"]
+                if rv["r"] == "ref" and rv["mut"] and not rv["p"]["p"] and rv["p"]["l"] in chain:
+                    out.append((mir.short(mir.callee_path(t["f"]) or "?"), t["sp"]))
+    return out
+
+
 def _check_chain(ctx, body, term, kind, anchor, site):
     names, root = _chain(term)
     bad = [n for n in names if not mir._strip_generics(n).endswith(ORDER_PRESERVING)]
@@ -310,6 +339,9 @@ def idx_r2(ctx):
                                       sites=[s["sp"]], got=render(term), key="from_iter")
                             n += 1
                         else:
+                            muts = _local_mutators(b, rv["ops"][i])
+                            ctx.check(anchor, not muts, "the table is not reordered / filtered between being filled and being stored",
+                                      sites=[x[1] for x in muts], got=[x[0] for x in muts], key="mutated-before-store")
                             if _check_chain(ctx, b, term, kind, anchor, s["sp"]):
                                 n += 1
         # (c) no position-shifting mutation of the field anywhere in library code
